@@ -20,8 +20,8 @@ func vhEntKey(e []model.AddressEntityType) string { return fmt.Sprint(e) }
 // C06 (inductive step): one discovery notification applied to an arbitrary remote tree.
 func VH_c06_remotetree() {
 	shapes := []string{"add", "remove", "add+add", "remove+remove", "add+remove", "remove+add", "full"}
-	si := verifrt.ShardChoice("shape", len(shapes))
-	shape := shapes[si]
+	cs := verifrt.ShardChoice("case", len(shapes)*len(vhC06Ents))
+	shape, firstEnt := shapes[cs/len(vhC06Ents)], cs%len(vhC06Ents)
 	verifrt.Scenario(shape)
 	w := vhNewWorld(vhWorldOpts{})
 	nmA, nmL := vhAddr("A", []uint{0}, 0), vhAddr("L", []uint{0}, 0)
@@ -53,7 +53,6 @@ func VH_c06_remotetree() {
 		}
 	}
 	extra(w.rA, "A", "A")
-	extra(w.rB, "B", "B")
 
 	// registries and client-side bookkeeping referring to the client feature 1 of every existing entity of A and B
 	sm := w.L.SubscriptionManager().(*SubscriptionManager)
@@ -73,7 +72,8 @@ func VH_c06_remotetree() {
 			if cf == nil {
 				continue
 			}
-			if verifrt.Concrete(verifrt.Bool(fmt.Sprintf("pre.sub.%s%v", dev, e))) {
+			// [1] of either peer is subscribed on a symbolic choice; the optional entities of A always are
+			if len(e) > 1 || e[0] != 1 || verifrt.Concrete(verifrt.Bool(fmt.Sprintf("pre.sub.%s%v", dev, e))) {
 				id++
 				sm.subscriptionEntries = append(sm.subscriptionEntries, &api.SubscriptionEntry{Id: id, ServerFeature: w.F1, ClientFeature: cf})
 				subs = append(subs, ref{p, vhEntKey(NewAddressEntityType(e)), cf})
@@ -113,8 +113,9 @@ func VH_c06_remotetree() {
 	var fis []model.NodeManagementDetailedDiscoveryFeatureInformationType
 	kinds := map[string][]bool{"add": {true}, "remove": {false}, "add+add": {true, true}, "remove+remove": {false, false}, "add+remove": {true, false}, "remove+add": {false, true}, "full": {true}}[shape]
 	for i := 0; i < nEntries; i++ {
-		e := vhC06Ents[verifrt.Choice(fmt.Sprintf("msg.entity[%d]", i), len(vhC06Ents))]
+		e := vhC06Ents[firstEnt]
 		if i == 1 {
+			e = vhC06Ents[verifrt.Choice("msg.entity[1]", len(vhC06Ents))]
 			verifrt.Assume(vhEntKey(NewAddressEntityType(e)) != vhEntKey(NewAddressEntityType(entries[0].ent)))
 		}
 		en := entry{ent: e, added: kinds[i]}
@@ -128,7 +129,7 @@ func VH_c06_remotetree() {
 		}
 		eis = append(eis, ei)
 		if en.added {
-			nf := verifrt.Choice(fmt.Sprintf("msg.features[%d]", i), 3)
+			nf := verifrt.Choice(fmt.Sprintf("msg.features[%d]", i), verifrt.Param("maxFeatures", 1)+1)
 			for k := 0; k < nf; k++ {
 				ft := []model.FeatureTypeType{model.FeatureTypeTypeLoadControl, model.FeatureTypeTypeMeasurement}[verifrt.Choice(fmt.Sprintf("msg.ftype[%d][%d]", i, k), 2)]
 				role := []model.RoleType{model.RoleTypeClient, model.RoleTypeServer}[verifrt.Choice(fmt.Sprintf("msg.role[%d][%d]", i, k), 2)]
@@ -173,6 +174,14 @@ func VH_c06_remotetree() {
 		if !preEnt[key] {
 			want[key] = true
 			addEv++
+		}
+		switch {
+		case addEv > 0 && remEv > 0:
+			verifrt.Scenario("full/mixed")
+		case addEv > 0:
+			verifrt.Scenario("full/adds-only")
+		default:
+			verifrt.Scenario("full/removes-only")
 		}
 	} else {
 		for _, en := range entries {
